@@ -485,3 +485,47 @@ Proof.
   cbn zeta. split; [|split]; [| |reflexivity];
     apply (run_invariants _ empty_db db_wf_empty sets_ok_empty).
 Qed.
+
+(* ---------------------------------------------------------------- all command families (Mem/SetsCompose.v) *)
+Require Import Mem.SetsCompose.
+
+(* every command of EVERY family (strings/keys, lists, hashes, sets, sorted sets, streams), at
+   any clock and with any observed reply, preserves db_wf and the value invariant *)
+Theorem C11_invariants_exec : forall d now nowms args hint,
+  db_wf d -> sets_ok d ->
+  db_wf (snd (exec d now nowms args hint)) /\ sets_ok (snd (exec d now nowms args hint)).
+Proof. exact exec_all_invariants. Qed.
+Print Assumptions C11_invariants_exec.
+
+(* hence every program over all families does ([run_exec]: fold of Exec.exec) *)
+Theorem C11_invariants_programs_all : forall prog d,
+  db_wf d -> sets_ok d -> db_wf (run_exec prog d) /\ sets_ok (run_exec prog d).
+Proof. exact run_exec_all_invariants. Qed.
+Print Assumptions C11_invariants_programs_all.
+
+(* after ANY program of ANY commands from the empty database, a key that holds a set holds a
+   duplicate-free set with at least one member: an emptied set has ceased to exist *)
+Theorem C11_emptied_set_removed_all : forall prog now k s t,
+  view (run_exec prog empty_db) now k = Some (VSet s, t) -> NoDup s /\ s <> [].
+Proof. exact emptied_set_removed_all. Qed.
+Print Assumptions C11_emptied_set_removed_all.
+
+(* deadlines: every set command except the three STORE forms leaves the deadline of every key
+   that is still there as it was (the STORE forms remove that of the destination: the C11_store_replaces theorems) *)
+Theorem C11_only_store_touches_deadlines : forall d now nowms n args hint r d',
+  existsb (bytes_eqb n) sets_store_names = false ->
+  sets_dispatch d now nowms n args hint = Some (r, d') -> keeps d d'.
+Proof. exact sets_dispatch_keeps. Qed.
+Print Assumptions C11_only_store_touches_deadlines.
+
+Example ex_program_all_families :
+  let prog : list (Z * Z * list bytes * reply) :=
+    [(1, 1000, [B "SADD"; B "k"; B "x"], RNil);
+     (1, 1000, [B "SET"; B "str"; B "v"], RNil);
+     (1, 1000, [B "RENAME"; B "k"; B "k2"], RNil);
+     (2, 2000, [B "SPOP"; B "k2"], RBulk (B "x"))] in
+  view (run_exec prog empty_db) 2 (B "k2") = None /\ sets_ok (run_exec prog empty_db).
+Proof.
+  cbn zeta. split; [reflexivity|].
+  apply (run_exec_all_invariants _ empty_db db_wf_empty sets_ok_empty).
+Qed.
